@@ -28,3 +28,13 @@ claim("C02",
       "Properties/C02.v); text domain as the quantifier states; RTF reader (Rtf/Read.v, Rtf/Decode.v) is my formalisation.",
       "Rocq proof of slicing/segment kernels + checked model/code correspondence on tagged rows",
       "DESIGN.md section 6 C02")
+claim("C13",
+      "Theorems (Coq, unbounded): for every frame and every distinct key list, the model's suppression shows in group "
+      "column j exactly expected_group_cell (blank iff the hierarchical key tuple equals the preceding row's), page starts "
+      "restore the original values, other columns are untouched, and non-contiguous keys yield Err ValueErr. The rule "
+      "check_c13 (same expected_group_cell, stated on key tuples) is evaluated on every page of the parsed rtf_encode() "
+      "output; thorough tier enumerates all key sequences over {A,B,C,null} up to length 6.",
+      "polars ne_missing / when-otherwise / slice semantics are modelled as list operations (GroupBy.v), tied by "
+      "correspondence; the string-key contiguity test is modelled literally and compared with tuple contiguity on the generated domain.",
+      "Rocq proof (fold over hierarchy levels) + checked correspondence + exhaustive key sequences",
+      "DESIGN.md section 6 C13")
